@@ -405,7 +405,7 @@ func TestC20(t *testing.T) {
 	}
 	cases := c20Cases(ev.Thorough())
 	for i, c := range cases {
-		if i%ev.Shards() != ev.Shard() {
+		if i%ev.Shards() != ev.ShardIndex() {
 			continue
 		}
 		judgeC20(t, c)
